@@ -2,6 +2,7 @@ package c07
 
 import (
 	"fmt"
+	"os"
 	"testing"
 	"time"
 
@@ -29,7 +30,7 @@ func noDualOwnership(t *testing.T, focus wl.GroupFocus) {
 		bubble.Run(t, rt, func(e *bubble.Env) {
 			o = wl.RunGroup(e, plan)
 			fail := func(format string, a ...any) {
-				rt.Fatalf("%s\nplan: %s\nhistory tail:\n%s", fmt.Sprintf(format, a...), plan.Brief(), o.Log.Dump(60))
+				rt.Fatalf("%s\nplan: %s\nhistory tail:\n%s", fmt.Sprintf(format, a...), plan.Brief(), o.Log.Dump(dumpN()))
 			}
 			if o.DualOwnership != "" {
 				fail("two members own a partition at once: %s", o.DualOwnership)
@@ -75,4 +76,11 @@ func noDualOwnership(t *testing.T, focus wl.GroupFocus) {
 			})
 		}
 	})
+}
+
+func dumpN() int {
+	if os.Getenv("VERIF_DEBUG") != "" {
+		return 2000
+	}
+	return 60
 }
